@@ -85,7 +85,10 @@ type Proof struct {
 }
 
 func (p *Proof) IsValid(public Public) bool {
-	if p == nil {
+	if p == nil || p.Commitment == nil || public.Prover == nil || public.Verifier == nil || public.Aux == nil {
+		return false
+	}
+	if !arith.IsValidNatModN(public.Aux.N(), p.E, p.S, p.F, p.T) {
 		return false
 	}
 	if !public.Verifier.ValidateCiphertexts(p.A) {
